@@ -79,6 +79,7 @@ class Ctx:
         self.memo = {}           # per path: z3 ast id -> decided truth value (PC only grows along a path)
         self.smtlog = None       # optional list collecting (assertions, extra, result) for cross-checking
         self.smtlog_every = 0
+        self.smtlog_max = 12
 
     # ---------------------------------------------------------------- variables
     def _name(self, base):
@@ -100,8 +101,11 @@ class Ctx:
         self.queries += 1
         r = self.solver.check(*extra)
         self.solver_s += time.time() - t
-        if self.smtlog is not None and self.smtlog_every and self.queries % self.smtlog_every == 0:
-            self.smtlog.append((list(self.solver.assertions()), list(extra), str(r)))
+        if self.smtlog is not None and self.smtlog_every and self.queries % self.smtlog_every == 0 and len(self.smtlog) < self.smtlog_max:
+            s2 = z3.Solver()
+            s2.add(*self.solver.assertions())
+            s2.add(*extra)
+            self.smtlog.append((s2.to_smt2(), str(r)))
         if r == z3.unknown:
             self.dead = 'solver unknown: %s' % self.solver.reason_unknown()
             self.inconclusive.append(self.dead)
